@@ -161,7 +161,12 @@ func parserTrace(e *env) error {
 			faultAt = 1 + e.rng.Intn(len(lines)+1)
 			faultMid = faultAt <= len(lines) && e.rng.Intn(2) == 0
 			if faultMid {
-				part = genFile(e, 1, 300, 5, 10, 10, 4+0)[0:1][0]
+				for {
+					if g := genFile(e, 2, 300, 5, 10, 10, 4); len(g) > 0 {
+						part = g[0]
+						break
+					}
+				}
 				fault = map[string]interface{}{"at": faultAt, "mid": true, "part": absLineJSON(part)}
 			} else {
 				fault = map[string]interface{}{"at": faultAt, "mid": false, "part": map[string]interface{}{"k": "blank"}}
